@@ -28,6 +28,7 @@ STRENGTHENED = {
     "C18-m4": "caught after Nibbles concatenation entry points were added",
     "C07-m4": "missed while the harness only retried the failed call; caught after a different write on the same object follows the first failure",
     "C12-m6": "first inconclusive (interpreter gave up on None == bytes); now modelled, and reported by the adjacent-key native boundary run",
+    "C15-m5": "needed the known image keccak(b'') = BLANK_HASH in Engine L's hash model to tell BLANK_HASH from BLANK_NODE_HASH",
     "C14-m4": "needs set;set;set with equal values; second targeted 3-operation obligation added to the quick tier",
 }
 for d in sorted(os.listdir(os.path.join(HERE, "seeded"))):
